@@ -41,6 +41,9 @@ impl Deserialize for Vkeywitnesses {
                     if raw.special()? != cbor_event::Special::Break {
                         return Err(DeserializeFailure::EndingBreakMissing.into());
                     }
+                    if let cbor_event::Len::Len(_) = len {
+                        return Err(DeserializeFailure::BreakInDefiniteLen.into());
+                    }
                     break;
                 }
                 wits.add_move(Vkeywitness::deserialize(raw)?);
